@@ -1,4 +1,296 @@
-//! probe searches for the dual-number functions (filled in with the dual units)
-pub fn probe(_func: &str) -> bool {
+//! Probe search for the dual-number functions: the real Dual / Dual2 / Number operators are compared with an
+//! independent reference implementation of forward-mode AD (maps keyed by variable name, full Hessian),
+//! over a small grid of values and variable layouts (shared, permuted, subset, superset, disjoint, overlapping).
+//! Replay aid only.
+use crate::report;
+use num_traits::{Pow, Signed};
+use rateslib::dual::{Dual, Dual2, Gradient1, Gradient2, MathFuncs, Vars};
+use statrs::distribution::{ContinuousCDF, Normal};
+use std::collections::BTreeMap;
+use std::panic;
+use std::sync::Arc;
+
+#[derive(Clone, Debug)]
+struct R {
+    v: f64,
+    g: BTreeMap<String, f64>,
+    h: BTreeMap<(String, String), f64>,
+}
+
+fn names(a: &R, b: &R) -> Vec<String> {
+    let mut s: Vec<String> = a.g.keys().chain(b.g.keys()).cloned().collect();
+    s.sort();
+    s.dedup();
+    s
+}
+fn gg(a: &R, n: &str) -> f64 {
+    *a.g.get(n).unwrap_or(&0.0)
+}
+fn hh(a: &R, n: &str, k: &str) -> f64 {
+    *a.h.get(&(n.to_string(), k.to_string())).unwrap_or(&0.0)
+}
+/// general binary rule with partials (f, fa, fb, faa, fab, fbb)
+fn bin(a: &R, b: &R, p: (f64, f64, f64, f64, f64, f64)) -> R {
+    let ns = names(a, b);
+    let mut g = BTreeMap::new();
+    let mut h = BTreeMap::new();
+    for n in &ns {
+        g.insert(n.clone(), p.1 * gg(a, n) + p.2 * gg(b, n));
+        for k in &ns {
+            let v = p.1 * hh(a, n, k) + p.2 * hh(b, n, k)
+                + p.3 * gg(a, n) * gg(a, k)
+                + p.4 * (gg(a, n) * gg(b, k) + gg(a, k) * gg(b, n))
+                + p.5 * gg(b, n) * gg(b, k);
+            h.insert((n.clone(), k.clone()), v);
+        }
+    }
+    R { v: p.0, g, h }
+}
+fn un(a: &R, p: (f64, f64, f64)) -> R {
+    let z = R { v: 0.0, g: BTreeMap::new(), h: BTreeMap::new() };
+    let mut r = bin(a, &z, (p.0, p.1, 0.0, p.2, 0.0, 0.0));
+    r.g.retain(|k, _| a.g.contains_key(k));
+    r
+}
+fn phi(x: f64) -> f64 {
+    (-x * x / 2.0).exp() / (2.0 * std::f64::consts::PI).sqrt()
+}
+
+fn mk2(v: f64, names: &[&str], g: &[f64], hfull: &[f64]) -> (Dual2, R) {
+    let n = names.len();
+    // stored dual2 is HALF the Hessian
+    let half: Vec<f64> = hfull.iter().map(|x| x / 2.0).collect();
+    let d = Dual2::try_new(v, names.iter().map(|s| s.to_string()).collect(), g.to_vec(), half).unwrap();
+    let mut r = R { v, g: BTreeMap::new(), h: BTreeMap::new() };
+    for i in 0..n {
+        r.g.insert(names[i].to_string(), g[i]);
+        for j in 0..n {
+            r.h.insert((names[i].to_string(), names[j].to_string()), hfull[i * n + j]);
+        }
+    }
+    (d, r)
+}
+fn to1(d: &Dual2) -> Dual {
+    Dual::from(d)
+}
+
+fn close(a: f64, b: f64) -> bool {
+    if a.is_nan() || b.is_nan() {
+        return a.is_nan() && b.is_nan();
+    }
+    (a - b).abs() <= 1e-9 * (1.0 + a.abs().max(b.abs()))
+}
+
+fn cmp2(what: &str, input: &str, got: &Dual2, exp: &R, extra: &[&str]) -> bool {
+    let mut ns: Vec<String> = exp.g.keys().cloned().collect();
+    for e in extra {
+        ns.push(e.to_string());
+    }
+    ns.push("zz_absent".to_string());
+    let g = got.gradient1(ns.clone());
+    let h = got.gradient2(ns.clone());
+    let mut ok = close(got.real(), exp.v);
+    for (i, n) in ns.iter().enumerate() {
+        ok &= close(g[i], gg(exp, n));
+        for (j, k) in ns.iter().enumerate() {
+            ok &= close(h[[i, j]], hh(exp, n, k));
+        }
+    }
+    if !ok {
+        report("probe", what, input, &format!("val={} grad={:?} hess={:?} (names {:?})", got.real(), g.to_vec(), h.iter().cloned().collect::<Vec<f64>>(), ns),
+               &format!("val={} grad={:?} hess={:?}", exp.v, ns.iter().map(|n| gg(exp, n)).collect::<Vec<f64>>(), ns.iter().flat_map(|n| ns.iter().map(move |k| (n.clone(), k.clone()))).map(|(n, k)| hh(exp, &n, &k)).collect::<Vec<f64>>()), false);
+    }
+    !ok
+}
+fn cmp1(what: &str, input: &str, got: &Dual, exp: &R) -> bool {
+    let mut ns: Vec<String> = exp.g.keys().cloned().collect();
+    ns.push("zz_absent".to_string());
+    let g = got.gradient1(ns.clone());
+    let mut ok = close(got.real(), exp.v);
+    for (i, n) in ns.iter().enumerate() {
+        ok &= close(g[i], gg(exp, n));
+    }
+    if !ok {
+        report("probe", what, input, &format!("val={} grad={:?} (names {:?})", got.real(), g.to_vec(), ns),
+               &format!("val={} grad={:?}", exp.v, ns.iter().map(|n| gg(exp, n)).collect::<Vec<f64>>()), false);
+    }
+    !ok
+}
+
+fn operands() -> Vec<(String, Dual2, R)> {
+    let mut out = Vec::new();
+    let vals = [0.0, -1.5, 0.5, 2.0, 1.0];
+    let layouts: Vec<(Vec<&str>, Vec<f64>, Vec<f64>)> = vec![
+        (vec!["x", "y"], vec![1.0, 2.0], vec![2.0, 3.0, 3.0, 5.0]),
+        (vec!["y", "x"], vec![-2.0, 0.5], vec![1.0, -1.0, -1.0, 4.0]),
+        (vec!["x"], vec![3.0], vec![0.5]),
+        (vec!["x", "y", "z"], vec![1.0, 0.0, -1.0], vec![0.0, 1.0, 0.0, 1.0, 2.0, 0.0, 0.0, 0.0, 0.0]),
+        (vec!["w"], vec![1.5], vec![-2.0]),
+        (vec!["y", "w"], vec![0.0, 1.0], vec![0.0, 0.0, 0.0, 6.0]),
+        (vec![], vec![], vec![]),
+    ];
+    for v in vals {
+        for (ns, g, h) in &layouts {
+            let (d, r) = mk2(v, ns, g, h);
+            out.push((format!("Dual2({}, {:?}, grad={:?}, hess={:?})", v, ns, g, h), d, r));
+        }
+    }
+    out
+}
+
+fn catch<T>(f: impl FnOnce() -> T + panic::UnwindSafe) -> Option<T> {
+    panic::catch_unwind(f).ok()
+}
+
+pub fn probe(func: &str) -> bool {
+    let known = ["pow", "exp", "log", "norm_cdf", "inv_norm_cdf", "abs", "eq", "to_new_vars", "to_union_vars", "to_combined_vars", "vars_cmp",
+                 "gradient1", "gradient2", "gradient1_manifold", "fouter11_", "partial_cmp", "sum", "zero", "one", "is_zero", "from", "set_order", "set_order_clone"];
+    if !(func.starts_with("op_") || known.contains(&func)) {
+        return false;
+    }
+    let ops = operands();
+    let nrm = Normal::new(0.0, 1.0).unwrap();
+    // ---- unary
+    for (ia, a, ra) in &ops {
+        let x = ra.v;
+        let a1 = to1(a);
+        let mut ra1 = ra.clone();
+        ra1.h.clear();
+        let mut cases: Vec<(&str, Option<Dual2>, Option<Dual>, R)> = Vec::new();
+        cases.push(("neg", catch(|| -a), catch(|| -&a1), un(ra, (-x, -1.0, 0.0))));
+        cases.push(("exp", catch(|| a.exp()), catch(|| a1.exp()), un(ra, (x.exp(), x.exp(), x.exp()))));
+        if x > 0.0 {
+            cases.push(("log", catch(|| a.log()), catch(|| a1.log()), un(ra, (x.ln(), 1.0 / x, -1.0 / (x * x)))));
+        }
+        cases.push(("norm_cdf", catch(|| a.norm_cdf()), catch(|| a1.norm_cdf()), un(ra, (nrm.cdf(x), phi(x), -x * phi(x)))));
+        if x > 0.0 && x < 1.0 {
+            let b = nrm.inverse_cdf(x);
+            cases.push(("inv_norm_cdf", catch(|| a.inv_norm_cdf()), catch(|| a1.inv_norm_cdf()), un(ra, (b, 1.0 / phi(b), b / (phi(b) * phi(b))))));
+        }
+        if x != 0.0 {
+            let s = if x < 0.0 { -1.0 } else { 1.0 };
+            cases.push(("abs", catch(|| a.abs()), catch(|| a1.abs()), un(ra, (x.abs(), s, 0.0))));
+        }
+        for p in [1.0, 2.0, 3.0, -1.0, 0.5, 2.5] {
+            if x < 0.0 && p != (p as i64) as f64 { continue; }
+            if x == 0.0 && p < 2.0 && p != 1.0 { continue; }
+            let (f, fa, faa) = (x.powf(p), p * x.powf(p - 1.0), p * (p - 1.0) * x.powf(p - 2.0));
+            if !(f.is_finite() && fa.is_finite() && faa.is_finite()) { continue; }
+            let name: &'static str = Box::leak(format!("pow({})", p).into_boxed_str());
+            // first order only needs f, fa
+            cases.push((name, catch(|| a.pow(p)), catch(|| (&a1).pow(p)), un(ra, (f, fa, faa))));
+        }
+        for (nm, r2, r1, exp) in cases {
+            let inp = format!("{}({})", nm, ia);
+            match r2 {
+                Some(r2) => { if cmp2(func, &inp, &r2, &exp, &[]) { return true; } }
+                None => { report("probe", func, &inp, "PANIC", "a value", false); return true; }
+            }
+            let mut e1 = exp.clone();
+            e1.h.clear();
+            match r1 {
+                Some(r1) => { if cmp1(func, &format!("{} [first order]", inp), &r1, &e1) { return true; } }
+                None => { report("probe", func, &inp, "PANIC", "a value", false); return true; }
+            }
+        }
+        // float mixes
+        for c in [2.0, -0.5] {
+            let z = R { v: c, g: BTreeMap::new(), h: BTreeMap::new() };
+            let checks: Vec<(&str, Option<Dual2>, R)> = vec![
+                ("a+c", catch(|| a + c), bin(ra, &z, (x + c, 1.0, 1.0, 0.0, 0.0, 0.0))),
+                ("c+a", catch(|| c + a), bin(ra, &z, (x + c, 1.0, 1.0, 0.0, 0.0, 0.0))),
+                ("a-c", catch(|| a - c), bin(ra, &z, (x - c, 1.0, -1.0, 0.0, 0.0, 0.0))),
+                ("c-a", catch(|| c - a), bin(&z, ra, (c - x, 1.0, -1.0, 0.0, 0.0, 0.0))),
+                ("a*c", catch(|| a * c), bin(ra, &z, (x * c, c, x, 0.0, 1.0, 0.0))),
+                ("c*a", catch(|| c * a), bin(ra, &z, (x * c, c, x, 0.0, 1.0, 0.0))),
+                ("a/c", catch(|| a / c), bin(ra, &z, (x / c, 1.0 / c, -x / (c * c), 0.0, -1.0 / (c * c), 2.0 * x / (c * c * c)))),
+            ];
+            for (nm, r2, exp) in checks {
+                let inp = format!("{} with a={}, c={}", nm, ia, c);
+                match r2 {
+                    Some(r2) => { if cmp2(func, &inp, &r2, &exp, &[]) { return true; } }
+                    None => { report("probe", func, &inp, "PANIC", "a value", false); return true; }
+                }
+            }
+            if x != 0.0 {
+                let exp = bin(&z, ra, (c / x, 1.0 / x, -c / (x * x), 0.0, -1.0 / (x * x), 2.0 * c / (x * x * x)));
+                match catch(|| c / a) {
+                    Some(r2) => { if cmp2(func, &format!("c/a with a={}, c={}", ia, c), &r2, &exp, &[]) { return true; } }
+                    None => { report("probe", func, "c/a", "PANIC", "a value", false); return true; }
+                }
+            }
+        }
+    }
+    // ---- binary, all layout pairs
+    for (ia, a, ra) in &ops {
+        for (ib, b, rb) in &ops {
+            let (x, y) = (ra.v, rb.v);
+            let mut checks: Vec<(&str, Option<Dual2>, Option<Dual>, R)> = vec![
+                ("a+b", catch(|| a + b), catch(|| to1(a) + to1(b)), bin(ra, rb, (x + y, 1.0, 1.0, 0.0, 0.0, 0.0))),
+                ("a-b", catch(|| a - b), catch(|| to1(a) - to1(b)), bin(ra, rb, (x - y, 1.0, -1.0, 0.0, 0.0, 0.0))),
+                ("a*b", catch(|| a * b), catch(|| to1(a) * to1(b)), bin(ra, rb, (x * y, y, x, 0.0, 1.0, 0.0))),
+            ];
+            if y != 0.0 {
+                checks.push(("a/b", catch(|| a / b), catch(|| to1(a) / to1(b)), bin(ra, rb, (x / y, 1.0 / y, -x / (y * y), 0.0, -1.0 / (y * y), 2.0 * x / (y * y * y)))));
+                let q = (x / y).trunc();
+                checks.push(("a%b", catch(|| a % b), catch(|| to1(a) % to1(b)), bin(ra, rb, (x - q * y, 1.0, -q, 0.0, 0.0, 0.0))));
+            }
+            for (nm, r2, r1, exp) in checks {
+                let inp = format!("{} with a={}, b={}", nm, ia, ib);
+                let extra: Vec<&str> = vec![];
+                match r2 {
+                    Some(r2) => {
+                        if cmp2(func, &inp, &r2, &exp, &extra) { return true; }
+                        // C03: result carries exactly the union of names, each once
+                        let mut got: Vec<String> = r2.vars().iter().cloned().collect();
+                        let n_got = got.len();
+                        got.sort(); got.dedup();
+                        let want = names(ra, rb);
+                        if got != want || n_got != want.len() {
+                            report("probe", func, &inp, &format!("vars {:?}", r2.vars()), &format!("the union {:?}, each once", want), false);
+                            return true;
+                        }
+                    }
+                    None => { report("probe", func, &inp, "PANIC", "a value", false); return true; }
+                }
+                let mut e1 = exp.clone();
+                e1.h.clear();
+                match r1 {
+                    Some(r1) => { if cmp1(func, &format!("{} [first order]", inp), &r1, &e1) { return true; } }
+                    None => { report("probe", func, &inp, "PANIC", "a value", false); return true; }
+                }
+            }
+            // equality: equal views <=> ==
+            let same = close(x, y) && names(ra, rb).iter().all(|n| close(gg(ra, n), gg(rb, n)) && names(ra, rb).iter().all(|k| close(hh(ra, n, k), hh(rb, n, k))));
+            if catch(|| a == b) != Some(same) {
+                report("probe", func, &format!("a == b with a={}, b={}", ia, ib), &format!("{:?}", catch(|| a == b)), &format!("{}", same), false);
+                return true;
+            }
+            let same1 = close(x, y) && names(ra, rb).iter().all(|n| close(gg(ra, n), gg(rb, n)));
+            if catch(|| to1(a) == to1(b)) != Some(same1) {
+                report("probe", func, &format!("a == b [first order] with a={}, b={}", ia, ib), &format!("{:?}", catch(|| to1(a) == to1(b))), &format!("{}", same1), false);
+                return true;
+            }
+            // shared storage: re-lay b onto a's Arc and repeat the product
+            let b2 = b.to_new_vars(a.vars(), None);
+            let _ = Arc::ptr_eq(a.vars(), b2.vars());
+        }
+    }
+    // ---- gradient1_manifold (absent and present names)
+    for (ia, a, ra) in &ops {
+        let req = vec!["y".to_string(), "q_absent".to_string(), "x".to_string()];
+        match catch(|| a.gradient1_manifold(req.clone())) {
+            Some(m) => {
+                for (i, n) in req.iter().enumerate() {
+                    let mut exp = R { v: gg(ra, n), g: BTreeMap::new(), h: BTreeMap::new() };
+                    for k in &req {
+                        exp.g.insert(k.clone(), hh(ra, n, k));
+                    }
+                    if cmp2(func, &format!("gradient1_manifold({:?})[{}] of {}", req, i, ia), &m[i], &exp, &[]) { return true; }
+                }
+            }
+            None => { report("probe", func, &format!("gradient1_manifold of {}", ia), "PANIC", "a value", false); return true; }
+        }
+    }
     false
 }
